@@ -40,3 +40,9 @@ From Trans Require Spec Equiv.
 Theorem C14_powerOfTwo : Trans.Spec.T_powerOfTwo.
 Proof. exact Trans.Equiv.powerOfTwo_equiv. Qed.
 Print Assumptions C14_powerOfTwo.
+
+(* read off the source (tie T1): WriteTo hands the peeked block - a view into the ring - to the writer BEFORE it commits
+   it, which is what C14_peek_stable needs of the consumer *)
+Theorem C14_writeto_writes_before_commit : Gen.Tables.writeto_writes_before_commit = true.
+Proof. reflexivity. Qed.
+Print Assumptions C14_writeto_writes_before_commit.
